@@ -213,9 +213,9 @@ func c08Check(p *Plan, r *RunResult) *Verdict {
 func init() {
 	Register(&Prop{
 		ID: "C08", Level: "exploration", Gen: c08Gen, Check: c08Check,
-		Rule: "seeded run of 1-3 real clustered instances whose peer names are permuted (every position assignment), peer time-out 2-15 s, settle time-out 0-6 s, push/pull 20/60 s; 1-4 label sets with heartbeats posted to every live instance (the property's premise) with skews up to 1.5 s, optional explicit resolve; 40 % of the runs are fault-free, the others have packet loss 0-40 %, duplication 0-20 %, delay up to twice the peer time-out, up to 3 partitions (also one-way), a crash (process kill or power loss) or graceful stop of one instance with or without a later restart on its disk, and receiver fault windows. Non-trivial: an at-least-once obligation was evaluated in a clean window or a healthy run's merged notification stream was checked for duplicates; distinct by abstract trace incl. fault counts.",
-		Real: []string{"app.New wiring with clustering", "cluster.Peer (position, settle, ready), delegate, channel", "hashicorp/memberlist", "notify pipeline incl. ClusterGossipSettleStage and ClusterWaitStage, timeout extension", "nflog replication (Log broadcast, Merge)", "dispatch, provider, api"},
-		Stub: []string{"clock (synctest, one clock for all instances)", "network: simnet", "receiver endpoints", "disk: simfs (crash with power-loss outcomes)"},
+		Rule:        "seeded run of 1-3 real clustered instances whose peer names are permuted (every position assignment), peer time-out 2-15 s, settle time-out 0-6 s, push/pull 20/60 s; 1-4 label sets with heartbeats posted to every live instance (the property's premise) with skews up to 1.5 s, optional explicit resolve; 40 % of the runs are fault-free, the others have packet loss 0-40 %, duplication 0-20 %, delay up to twice the peer time-out, up to 3 partitions (also one-way), a crash (process kill or power loss) or graceful stop of one instance with or without a later restart on its disk, and receiver fault windows. Non-trivial: an at-least-once obligation was evaluated in a clean window or a healthy run's merged notification stream was checked for duplicates; distinct by abstract trace incl. fault counts.",
+		Real:        []string{"app.New wiring with clustering", "cluster.Peer (position, settle, ready), delegate, channel", "hashicorp/memberlist", "notify pipeline incl. ClusterGossipSettleStage and ClusterWaitStage, timeout extension", "nflog replication (Log broadcast, Merge)", "dispatch, provider, api"},
+		Stub:        []string{"clock (synctest, one clock for all instances)", "network: simnet", "receiver endpoints", "disk: simfs (crash with power-loss outcomes)"},
 		Assumptions: []string{"no inter-instance clock skew", "the no-duplicates clause is asserted only in fault-free runs of at most two instances, where delivery of a gossiped log entry to the only peer is certain; with three instances gossip may legitimately miss a peer for a while", "at-least-once windows are extended by settle time-out + (n-1) x peer time-out + 5 s"},
 	})
 }
